@@ -821,6 +821,11 @@ func (e *Engine) enterLoop(fr *frame, li *loopInfo, reach string, heap Heap, con
 		if nv, ok := v.(SliceVal); ok {
 			if ov, ok := entry[phi].(SliceVal); ok && phiAppendOnly(phi, li) {
 				e.assumePrefix(fr, li, keys, h, hreachOrReach(reach), under(phi.Type()).(*types.Slice).Elem(), nv, ov)
+				if e.isFresh(ov.Arr) || ov.Arr == bvLit(0, 32) {
+					// the variable starts as nil or as a slice allocated by this execution and changes only by
+					// v = append(v, ...): its backing array is never an object of the pre-state
+					e.sc.assume(or(eq(nv.Arr, bvLit(0, 32)), app("bvuge", nv.Arr, bvLit(0x80000000, 32))))
+				}
 			}
 		}
 	}
